@@ -17,7 +17,9 @@ RULE = ('Hypothesis-generated resource trees (<= 20 nodes, depth <= 4, handles /
         'every node item access (and attribute access for identifiers) on the snapshot yields the identical '
         'loaded resource / a mirroring snapshot, get yields the identical handle, absent near-miss names raise; '
         'setattr/delattr on every snapshot node (existing, new, non-identifier names) must raise and the whole '
-        'mirror check must pass again afterwards. Non-trivial = identifier and non-identifier names side by '
+        'mirror check must pass again afterwards. '
+        'In ~13% of the cases the root level gets 40-260 further handles (the first and the last of them shadowing an older one). '
+        'Non-trivial = identifier and non-identifier names side by '
         'side in one map, depth >= 2, and a layered handle or an underscore-prefixed identifier. Distinct = sha1 '
         'of canonical JSON.')
 ASSUMPTIONS = [
